@@ -60,7 +60,7 @@ macro_rules! prim_float {
         impl Prim for $t {
             const NAME: &'static str = stringify!($t);
             fn samples() -> Vec<Self> {
-                vec![0.0, -0.0, 1.0, -1.0, 0.5, 2.5, -2.5, 127.0, 127.9, 128.0, -128.0, -128.9, -129.0, 255.0, 255.5, 256.0,
+                vec![0.0, -0.0, 1.0, -1.0, 0.5, -0.5, -0.999, -1.0e-30, -$t::MIN_POSITIVE, 2.5, -2.5, 127.0, 127.9, 128.0, -128.0, -128.9, -129.0, 255.0, 255.5, 256.0,
                      32767.0, 32768.0, -32768.0, -32769.0, 65535.0, 65536.0, 2147483647.0, 2147483648.0, -2147483648.0,
                      -2147483904.0, 4294967295.0, 4294967296.0, 9.2e18, 9.3e18, -9.3e18, 1.8e19, 1.9e19,
                      $t::MAX, $t::MIN, $t::MIN_POSITIVE, $t::EPSILON, $t::NAN, $t::INFINITY, $t::NEG_INFINITY, 3.0e38, 1.0e39f64 as $t]
